@@ -9,6 +9,7 @@ import (
 
 // modset of a set of blocks: heap arrays possibly written, or everything.
 type modSet struct {
+	region map[*ssa.BasicBlock]bool // blocks of the loop being summarised (nil: none)
 	all    bool
 	arrs   map[string]bool
 	ghosts map[string]bool
@@ -36,8 +37,24 @@ func (e *Exec) modOfInstr(in ssa.Instruction, depth int, ms *modSet) {
 			if _, isArr := a.X.Type().Underlying().(*types.Pointer); isArr {
 				// local array literal
 			} else if sl, ok := a.X.Type().Underlying().(*types.Slice); ok {
-				n, _ := e.seqArr(sl.Elem())
-				ms.arrs[n] = true
+				// element stores into a slice made in the same region only touch fresh references
+				if mk, fresh := a.X.(*ssa.MakeSlice); !fresh || ms.region == nil || !(ms.region[mk.Block()] || depth > 0) {
+					n, _ := e.seqArr(sl.Elem())
+					ms.arrs[n] = true
+				}
+			}
+		case *ssa.Alloc:
+			// a cell or object allocated inside the region is fresh in every iteration
+			if ms.region == nil || !(ms.region[a.Block()] || depth > 0) {
+				if p, ok := x.Addr.Type().Underlying().(*types.Pointer); ok {
+					if stt, T := structOf(p); stt != nil {
+						for i := 0; i < stt.NumFields(); i++ {
+							e.addFieldArrs(ms, T, stt.Field(i).Name(), stt.Field(i).Type())
+						}
+					} else {
+						e.addCellArrs(ms, p.Elem())
+					}
+				}
 			}
 		default:
 			// cell or unknown pointer
@@ -53,9 +70,6 @@ func (e *Exec) modOfInstr(in ssa.Instruction, depth int, ms *modSet) {
 		}
 	case *ssa.Alloc, *ssa.MakeInterface, *ssa.MakeClosure, *ssa.MakeSlice, *ssa.MakeMap, *ssa.MakeChan:
 		ms.alloc = true
-		if _, ok := in.(*ssa.MakeInterface); ok {
-			ms.arrs["BOX_Int"], ms.arrs["BOX_Bool"], ms.arrs["BOX_String"], ms.arrs["BOX_Bytes_s"], ms.arrs["BOX_Bytes_n"] = true, true, true, true, true
-		}
 	case *ssa.MapUpdate:
 		ms.arrs["MAPV"] = true
 		ms.arrs["MAPD"] = true
@@ -65,8 +79,7 @@ func (e *Exec) modOfInstr(in ssa.Instruction, depth int, ms *modSet) {
 		c := x.Common()
 		if b, ok := c.Value.(*ssa.Builtin); ok {
 			if b.Name() == "append" {
-				ms.alloc = true
-				ms.arrs["SEQ_Int"], ms.arrs["SEQ_String"], ms.arrs["SEQ_Bool"] = true, true, true
+				ms.alloc = true // appends build fresh sequences: no pre-existing reference is written
 			}
 			return
 		}
@@ -177,7 +190,7 @@ func (e *Exec) cutLoop(fr *Frame, li *loopInfo, st *State) *State {
 		e.oblige(st, fmt.Sprintf("loop%d:inv-entry:%s", li.n, lbl), "inv-entry", inv.Tags, g, inv.Text, li.header.Instrs[0].Pos())
 	}
 	// havoc
-	ms := &modSet{arrs: map[string]bool{}, ghosts: map[string]bool{}}
+	ms := &modSet{arrs: map[string]bool{}, ghosts: map[string]bool{}, region: li.blocks}
 	e.modOfBlocks(li.blocks, 0, ms)
 	for _, m := range spec.Modifies {
 		e.modOfClause(e.fc, m, ms)
